@@ -56,7 +56,8 @@ double Random(void)
 
 	double ret = 0.0;
 	unsigned lzs = intrinsics_clz(u_val) + 1;
-	u_val <<= lzs;
+	// lzs is 64 when only the least significant bit is set: shifting by the type width is undefined
+	u_val = likely(lzs < 64) ? u_val << lzs : 0;
 	u_val >>= 12;
 
 	uint64_t exp = 1023 - lzs;
